@@ -15,6 +15,16 @@ CHECKS = {
   text="Every expression (to a node budget) of an alphabet in which each optimizer rewrite can fire - constant arithmetic at any depth, literal arrays, in/not in over literal arrays and ranges with left operands of every static type (int kinds, floats, strings, nil, dynamic), constant ranges, const-expr calls with literal/folded/nested arguments - placed under calls with sized/float/interface parameters, conditionals and closures, is compiled optimized and unoptimized in struct/map/no-env modes and run on every value: both fail or both return equal values; the optimizer may reject only a constant integer division by zero; a ConstExpr mark may only move that call's failure to compile time.",
   note="Trusted: result normal form (kind-exact numbers, element-wise sequences); no expected values are needed. Bounded by node budget and value domains.",
   ref="DESIGN.md section 4 C02"),
+ "C03": dict(
+  technique="small-scope exhaustive enumeration of well-typed expressions (typed by construction) x values x result directives against the reference evaluator and checker.Check's reported type, plus exhaustive single-fault mutation (every position x fault kind) on the real Compile",
+  text="(i) Every expression of a statically typed grammar over every numeric kind, strings, bools, structs, slices, maps, functions and methods (and of the scalar/access/loops slices without dynamic sub-expressions) must compile; no run may fail where the dynamically typed reference evaluator succeeds (a type-reason failure); the result's dynamic type must be the type checker.Check reports and exactly bool/int64/float64 under AsBool/AsInt64/AsFloat64. (ii) Every single-fault mutant - unknown name/function/field/method, arity +-1, argument of a wrong type, mismatching operand of each operator, non-boolean condition or predicate, non-collection builtin argument, wrong index/slice-bound type - at every position must be rejected by Compile, optimized and not.",
+  note="Trusted: the typed grammar as the definition of well-typedness (Appendix E) and the reference evaluator; no error text is parsed.",
+  ref="DESIGN.md section 4 C03, Appendix E"),
+ "C04": dict(
+  technique="exhaustive enumeration of byte strings and token sequences up to a length, and of programs/mutants x option sets within deviation bound 2 x hostile run environments, through Parse/Eval/Compile/Run with panic and hang containment (recover, watchdog, crash-contained subprocess for 64 KiB stress shapes)",
+  text="All byte strings of <= 3/4 bytes over a 38-byte alphabet (every token class, quotes, escapes, multi-byte and invalid UTF-8) and all sequences of <= 3/4 tokens over 30 tokens go through Parse, Eval and Compile+Run+Disassemble; ~1500 programs and single-fault mutants are compiled under every option set within 2 deviations from the default (27 options including ill-shaped Operator/ConstExpr tables and Patch visitors that replace a node by every node kind, nil or a foreign node) and run on 9 environments (matching, nil, wrong shapes, nil members, nil pointer); 29 shapes of 64 KiB run in subprocesses under an address-space limit and a deadline. Oracle: no panic, no hang, error implies nil result, no error implies a usable program.",
+  note="Trusted: Go's recover for ordinary panics, the subprocess boundary for fatal errors; lengths between the bound and 64 KiB only through the stress family.",
+  ref="DESIGN.md section 4 C04"),
  "C05": dict(
   technique="explicit-state exploration of all paths of every emitted program through an abstract stack machine (states = ip x abstract stack x scope stack; branch outcomes and collection lengths as nondeterministic environment answers), static decoding, and conformance replay of single-stepped runs of the real VM against the model's transition table",
   text="Every program compiled from six slice grammars (optimized and not, struct/map/no-env) is decoded by an independent decoder (known opcodes, operands present, constant indices in range and of the expected kind, jump targets on instruction boundaries or at the end), then ALL its paths are explored in an abstract machine whose invariants are: no pop of an empty stack, scope operations only inside Begin..End, exactly one value and no open scope at the end. The model is bound to the code by single-stepping every program on every environment value through vm.Debug() and checking each observed (ip, depth, scopes) step against the per-opcode table. Boundary families sweep branch bodies around 2^16 bytes for every jump-emitting scheme and constant pools around 2^16 entries.",
